@@ -822,6 +822,18 @@ func (p *Project) do(c Cmd, sems []CmdSem, specs []int, ref *Node, pre *World) (
 	if c.Kind == "status" && res.Exit == 0 {
 		t.Out, _ = parseStatusDebug(res.Stdout)
 	}
+	if c.Kind == "push" || c.Kind == "fetch" {
+		// the visit log: dud announces every stage whose outputs it transfers, in completion order
+		var tags []string
+		for _, l := range strings.Split(res.Stdout+"\n"+res.Stderr, "\n") {
+			for _, pre := range []string{"pushing stage ", "fetching stage "} {
+				if strings.HasPrefix(l, pre) {
+					tags = append(tags, cxs(strings.TrimPrefix(l, pre)))
+				}
+			}
+		}
+		t.Out = "ORun " + clist(tags)
+	}
 	if c.Kind == "run" {
 		// the execution log is the suffix the commands appended to .runlog during this run
 		before := p.lastRunlog
